@@ -623,7 +623,7 @@ class Renderer:
 
     # -- closures that survive (not consumed by a combinator rewrite)
     def r_Closure(self, n):
-        if any(not i["simple_ident"] and not i["typed"] for i in n["inputs"]):
+        if not self.plain and any(not i["simple_ident"] and not i["typed"] for i in n["inputs"]):
             die("%s: closure with pattern parameters outside a supported combinator" % self.fn.key)
         return self.render_children(n)
 
